@@ -5,7 +5,7 @@ import ast as _ast
 
 from ..common import all_conds, conds_at, nshow, outer_field, paths
 from ..effects import Effects, fmt_eff
-from ..expr import C, SELF, canon, norm, show, strip_epochs, walk
+from ..expr import C, SELF, canon, mapx, norm, show, strip_epochs, walk
 from ..intervals import EQ, GT, path_orderings
 from ..model import AnalysisError
 from ._setops import (BLOOM_CTX, CMS_JOIN_CTX, SECOND, bloom_guard_prefix, cell, combine_rule, is_full_range,
@@ -86,16 +86,20 @@ def jaccard_rule(prog, rep, ctx):
         idx = next(iter(idxs))
         a, b = cell(SELF, "_bloom", idx), cell(SECOND, "_bloom", idx)
         if not counting:
-            if ctx == "BloomFilterOnDisk":
-                def wrap(c):
-                    return ("call", ("g", "int"), (("unp", "B", 0, ("call", ("g", "bytes"), (("lst", (c,)),), ())),), ())
-                a, b = wrap(a), wrap(b)
+            def unbyte(n):
+                # (bottom-up) unpack('B', bytes([x]))[0] is x for a byte x, and int(x) is x for an element of the bit array
+                if n[0] == "unp" and n[1].lstrip("<>=@!") == "B" and n[2] == 0 and n[3][0] == "call" and n[3][1] == ("g", "bytes") and len(n[3][2]) == 1 \
+                        and n[3][2][0][0] == "lst" and len(n[3][2][0][1]) == 1:
+                    return n[3][2][0][1][0]
+                if n[0] == "call" and n[1] == ("g", "int") and len(n[2]) == 1 and not n[3] and n[2][0][0] == "sub" and outer_field(n[2][0][1]) == "_bloom":
+                    return n[2][0]
+                return None
 
             def pop(x):
                 return canon(("call", ("m", ("call", ("g", "bin"), (x,), ()), "count"), (C("1"),), ()))
             wantN, wantD = pop(norm(("bin", "&", a, b))), pop(norm(("bin", "|", a, b)))
-            gotN = [canon(e.addend) for e in acc.get(N, [])]
-            gotD = [canon(e.addend) for e in acc.get(D, [])]
+            gotN = [canon(mapx(strip_epochs(e.addend), unbyte)) for e in acc.get(N, [])]
+            gotD = [canon(mapx(strip_epochs(e.addend), unbyte)) for e in acc.get(D, [])]
             if gotN != [wantN] or gotD != [wantD]:
                 rep.bad("C13.jaccard", where, f"numerator += {[nshow(x) for x in gotN]}, denominator += {[nshow(x) for x in gotD]}",
                         "the ratio is not popcount(a & b) / popcount(a | b) per byte", f.where())
